@@ -294,6 +294,9 @@ type vfRouteScenario struct {
 	// WMAdvance: the first watermark-only batch after the last scripted batch carries a high watermark this much
 	// above the last batch's (the source's watermark advances without tasks for this cluster)
 	WMAdvance int64 `json:"wm_advance,omitempty"`
+	// WMStep: EVERY watermark-only batch carries a high watermark this much above the previous message's (so a stale
+	// watermark can be told from the current one)
+	WMStep int64 `json:"wm_step,omitempty"`
 	// EagerAck: the targets complete and acknowledge every task batch the moment it is written to their stream
 	EagerAck bool `json:"eager_ack,omitempty"`
 	// OverlapInPlace (with Overlap): target shard k reconnects on the instance it is already connected to
@@ -411,6 +414,7 @@ type vfRouteExec struct {
 	closing       bool
 	failIntraSend bool                // fault: the next task batch sent on an intra-proxy stream fails (and the stream with it)
 	entered       map[string][][2]int // task tag -> (target, stream incarnation) whose Send the proxy has called with it
+	settleProp    string              // non-empty: the settled oracle reports under this property
 	wmSent        map[[2]int64]bool   // (source shard, high watermark) of every watermark-only batch a source has sent
 	peersUp       bool                // LatePeers scenarios: the intra-proxy streams may be established
 	// spawn starts a handler goroutine (plain go at the macro level, a managed goroutine at the micro level)
@@ -953,6 +957,7 @@ func (e *vfRouteExec) watermark(s *vfSrc) {
 		s.wmAdvanced = true
 		s.curHigh += e.sc.WMAdvance
 	}
+	s.curHigh += e.sc.WMStep
 	if s.curHigh > p.maxHigh {
 		p.maxHigh = s.curHigh
 	}
